@@ -202,6 +202,18 @@ def _concatenate(eng, args, kwargs):
     return SArr(npmodels.lam(body, k), tot, k, name="concat")
 
 
+# ------------------------------------------------------------------ nonzero of a concrete mask
+def _nonzero(eng, args, kwargs):
+    (m,) = args
+    if isinstance(m, NArr) and m.ndim == 1:
+        ts = [eng.truth(x) for x in m.items]
+        if all(isinstance(t, bool) for t in ts):
+            used(eng, "np.nonzero(concrete 1-D mask) = (positions of the true entries in order,)")
+            pos = [i for i, t in enumerate(ts) if t]
+            return (NArr((len(pos),), pos, "int"),)
+    return npmodels._np_nonzero(eng, args, kwargs)
+
+
 # ------------------------------------------------------------------ getattr / callable on interpreted objects
 def _getattr(eng, args, kwargs):
     from .values import Obj, Opaque
@@ -246,5 +258,6 @@ def install():
     models.EXTRA_MODELS[np.full] = _full
     models.EXTRA_MODELS[np.zeros] = _zeros
     models.EXTRA_MODELS[np.concatenate] = _concatenate
+    models.EXTRA_MODELS[np.nonzero] = _nonzero
     models.EXTRA_MODELS[getattr] = _getattr
     models.EXTRA_MODELS[callable] = _callable
